@@ -323,6 +323,90 @@ pub open spec fn msg_dom(m: MsgV) -> bool {
     }
 }
 
+pub proof fn lemma_msg_rt_sync(s: SyncV, tail: Seq<u8>)
+    requires
+        sync_dom(s),
+    ensures
+        dec_msg(enc_msg(MsgV::Sync(s)) + tail) == Some((MsgV::Sync(s), enc_msg(MsgV::Sync(s)).len())),
+{
+    let e = enc_uint(0);
+    let x = enc_msg(MsgV::Sync(s)) + tail;
+    assert(x =~= e + (enc_sync(s) + tail));
+    lemma_tag_round_trip(0, enc_sync(s) + tail);
+    theorem_sync_round_trip(s, tail);
+    assert(dec_tag(x) == Some((0u8, e.len())));
+    assert(x.skip(e.len() as int) == enc_sync(s) + tail);
+}
+
+pub proof fn lemma_msg_rt_awareness(u: AwarenessUpdate, tail: Seq<u8>)
+    requires
+        au_enc(u).len() <= u32::MAX,
+    ensures
+        dec_msg(enc_msg(MsgV::Awareness(u)) + tail) == Some((MsgV::Awareness(u), enc_msg(MsgV::Awareness(u)).len())),
+{
+    let e = enc_uint(1);
+    let x = enc_msg(MsgV::Awareness(u)) + tail;
+    assert(x =~= e + (enc_buf(au_enc(u)) + tail));
+    lemma_tag_round_trip(1, enc_buf(au_enc(u)) + tail);
+    lemma_buf_round_trip(au_enc(u), tail);
+    law_au_round_trip(u);
+    assert(dec_tag(x) == Some((1u8, e.len())));
+    assert(x.skip(e.len() as int) == enc_buf(au_enc(u)) + tail);
+}
+
+pub proof fn lemma_msg_rt_auth_denied(r: Seq<char>, tail: Seq<u8>)
+    requires
+        utf8(r).len() <= u32::MAX,
+    ensures
+        dec_msg(enc_msg(MsgV::Auth(Some(r))) + tail) == Some((MsgV::Auth(Some(r)), enc_msg(MsgV::Auth(Some(r))).len())),
+{
+    let e = enc_uint(2);
+    let e2 = enc_uint(0);
+    let x = enc_msg(MsgV::Auth(Some(r))) + tail;
+    let x1 = e2 + (enc_buf(utf8(r)) + tail);
+    assert(x =~= e + x1);
+    lemma_tag_round_trip(2, x1);
+    lemma_tag_round_trip(0, enc_buf(utf8(r)) + tail);
+    lemma_buf_round_trip(utf8(r), tail);
+    law_utf8_round_trip(r);
+    assert(dec_tag(x) == Some((2u8, e.len())));
+    assert(x.skip(e.len() as int) == x1);
+    assert(dec_tag(x1) == Some((0u8, e2.len())));
+    assert(x1.skip(e2.len() as int) == enc_buf(utf8(r)) + tail);
+}
+
+pub proof fn lemma_msg_rt_auth_granted(tail: Seq<u8>)
+    ensures
+        dec_msg(enc_msg(MsgV::Auth(None)) + tail) == Some((MsgV::Auth(None), enc_msg(MsgV::Auth(None)).len())),
+{
+    let e = enc_uint(2);
+    let e2 = enc_uint(1);
+    let x = enc_msg(MsgV::Auth(None)) + tail;
+    let x1 = e2 + tail;
+    assert(x =~= e + x1);
+    lemma_tag_round_trip(2, x1);
+    lemma_tag_round_trip(1, tail);
+    assert(dec_tag(x) == Some((2u8, e.len())));
+    assert(x.skip(e.len() as int) == x1);
+    assert(dec_tag(x1) == Some((1u8, e2.len())));
+}
+
+pub proof fn lemma_msg_rt_custom(tag: u8, data: Seq<u8>, tail: Seq<u8>)
+    requires
+        tag >= 4,
+        data.len() <= u32::MAX,
+    ensures
+        dec_msg(enc_msg(MsgV::Custom(tag, data)) + tail) == Some((MsgV::Custom(tag, data), enc_msg(MsgV::Custom(tag, data)).len())),
+{
+    let e = enc_uint(tag as nat);
+    let x = enc_msg(MsgV::Custom(tag, data)) + tail;
+    assert(x =~= e + (enc_buf(data) + tail));
+    lemma_tag_round_trip(tag, enc_buf(data) + tail);
+    lemma_buf_round_trip(data, tail);
+    assert(dec_tag(x) == Some((tag, e.len())));
+    assert(x.skip(e.len() as int) == enc_buf(data) + tail);
+}
+
 /// C09 for Message, over the wire format `enc_msg` (var-int tags): every message of the domain, every tail
 pub proof fn theorem_msg_round_trip(m: MsgV, tail: Seq<u8>)
     requires
@@ -331,43 +415,11 @@ pub proof fn theorem_msg_round_trip(m: MsgV, tail: Seq<u8>)
         dec_msg(enc_msg(m) + tail) == Some((m, enc_msg(m).len())),
 {
     match m {
-        MsgV::Sync(s) => {
-            let e = enc_uint(0);
-            assert(enc_msg(m) + tail =~= e + (enc_sync(s) + tail));
-            lemma_tag_round_trip(0, enc_sync(s) + tail);
-            theorem_sync_round_trip(s, tail);
-        },
-        MsgV::Awareness(u) => {
-            let e = enc_uint(1);
-            assert(enc_msg(m) + tail =~= e + (enc_buf(au_enc(u)) + tail));
-            lemma_tag_round_trip(1, enc_buf(au_enc(u)) + tail);
-            lemma_buf_round_trip(au_enc(u), tail);
-            law_au_round_trip(u);
-        },
-        MsgV::Auth(Some(r)) => {
-            let e = enc_uint(2);
-            let e2 = enc_uint(0);
-            assert(enc_msg(m) + tail =~= e + (e2 + (enc_buf(utf8(r)) + tail)));
-            lemma_tag_round_trip(2, e2 + (enc_buf(utf8(r)) + tail));
-            lemma_tag_round_trip(0, enc_buf(utf8(r)) + tail);
-            lemma_buf_round_trip(utf8(r), tail);
-            law_utf8_round_trip(r);
-        },
-        MsgV::Auth(None) => {
-            let e = enc_uint(2);
-            let e2 = enc_uint(1);
-            assert(enc_msg(m) + tail =~= e + (e2 + tail));
-            lemma_tag_round_trip(2, e2 + tail);
-            lemma_tag_round_trip(1, tail);
-        },
-        MsgV::AwarenessQuery => {
-            lemma_tag_round_trip(3, tail);
-        },
-        MsgV::Custom(tag, data) => {
-            let e = enc_uint(tag as nat);
-            assert(enc_msg(m) + tail =~= e + (enc_buf(data) + tail));
-            lemma_tag_round_trip(tag, enc_buf(data) + tail);
-            lemma_buf_round_trip(data, tail);
-        },
+        MsgV::Sync(s) => { lemma_msg_rt_sync(s, tail); },
+        MsgV::Awareness(u) => { lemma_msg_rt_awareness(u, tail); },
+        MsgV::Auth(Some(r)) => { lemma_msg_rt_auth_denied(r, tail); },
+        MsgV::Auth(None) => { lemma_msg_rt_auth_granted(tail); },
+        MsgV::AwarenessQuery => { lemma_tag_round_trip(3, tail); },
+        MsgV::Custom(tag, data) => { lemma_msg_rt_custom(tag, data, tail); },
     }
 }
